@@ -456,11 +456,10 @@ class Body:
                 if sw.bb not in seen:
                     continue
                 l = sw.on.key
-                stores = self.const_stores(l)
-                alld = [d for d in self.defs.get(l, []) if d[1] == 'call' or not d[2]['lhs']['p']]
-                if not stores or len(stores) != len(alld):
+                stores = self.flag_stores(l)
+                if not stores:
                     continue
-                vals = set(bool(v) for (bb, si, v) in stores if bb in seen)
+                vals = set(bool(v) for (bb, v) in stores if bb in seen)
                 if len(vals) == 1:
                     ts = set(sw.targets(next(iter(vals))))
                     new = allowed[sw.bb] & ts if sw.bb in allowed else ts
@@ -679,6 +678,66 @@ class Body:
             return self.place_val(operand['place'], depth)
         return V('other', k)
 
+    def _mut_borrowed_and_stored(self):
+        """locals of which a `&mut` is taken through which something is stored (`*r = v` with r = &mut l)"""
+        if getattr(self, '_mbs', None) is None:
+            refs = {}
+            for i, bl in enumerate(self.blocks):
+                for st in bl['stmts']:
+                    if st['k'] == 'assign' and st['rv']['k'] == 'ref' and st['rv'].get('mut') and \
+                            not st['rv']['place']['p'] and not st['lhs']['p']:
+                        refs.setdefault(st['lhs']['l'], set()).add(st['rv']['place']['l'])
+            # references handed on by a plain copy (`r2 = move r1`, as when a closure's captures are substituted)
+            for _ in range(6):
+                grew = False
+                for i, bl in enumerate(self.blocks):
+                    for st in bl['stmts']:
+                        if st['k'] == 'assign' and not st['lhs']['p'] and st['rv']['k'] in ('use', 'cast') and \
+                                st['rv']['op'].get('k') in ('copy', 'move') and not st['rv']['op']['place']['p'] and \
+                                st['rv']['op']['place']['l'] in refs:
+                            cur = refs.setdefault(st['lhs']['l'], set())
+                            add = refs[st['rv']['op']['place']['l']] - cur
+                            if add:
+                                cur |= add
+                                grew = True
+                if not grew:
+                    break
+            out = set()
+            for i, bl in enumerate(self.blocks):
+                for st in bl['stmts']:
+                    if st['k'] == 'assign' and st['lhs']['p'] == ['deref'] and st['lhs']['l'] in refs:
+                        out |= refs[st['lhs']['l']]
+            self._mbs = out
+            self._mut_refs = refs
+        return self._mbs
+
+    def flag_stores(self, l):
+        """(block, value) of every store of a constant to bool local l - directly or through a `&mut l`; None when
+        something that is not a constant is stored (then l is not a constant flag)"""
+        self._mut_borrowed_and_stored()
+        out = []
+        for (i, si, st) in self.defs.get(l, []):
+            if si == 'call':
+                return None
+            if st['lhs']['p']:
+                continue
+            rv = st['rv']
+            if rv['k'] == 'use' and rv['op']['k'] == 'const' and 'val' in rv['op']:
+                out.append((i, rv['op']['val']))
+            else:
+                return None
+        for i, bl in enumerate(self.blocks):
+            if bl['cleanup']:
+                continue
+            for st in bl['stmts']:
+                if st['k'] == 'assign' and st['lhs']['p'] == ['deref'] and l in self._mut_refs.get(st['lhs']['l'], ()):
+                    rv = st['rv']
+                    if rv['k'] == 'use' and rv['op']['k'] == 'const' and 'val' in rv['op']:
+                        out.append((i, rv['op']['val']))
+                    else:
+                        return None
+        return out
+
     def local_val(self, l, depth=0):
         if l in self._valcache:
             return self._valcache[l]
@@ -710,6 +769,10 @@ class Body:
         st = whole[0][2]
         rv = st['rv']
         k = rv['k']
+        if k == 'use' and rv['op'].get('k') == 'const' and l in self._mut_borrowed_and_stored():
+            # `let mut flag = false; .. *(&mut flag) = true ..` (a flag set by a closure that captured it): the one
+            # whole definition is not the only value
+            return self._valcache[l]
         if k == 'use':
             v = self.val(rv['op'], depth + 1)
         elif k == 'ref' or k == 'rawptr':
@@ -1111,8 +1174,9 @@ class Facts:
         if path not in self._norm:
             import desugar
             jb = self.bodies[path].j
-            jd = desugar.Desugarer(self._inl, lambda c, k, j: c.startswith('extern:') or self._inl[c]['kind'] == 'Closure'
-                                   or c in self.unknown_functions, self._adt_paths).run(jb)
+            dz = desugar.Desugarer(self._inl, lambda c, k, j: True, self._adt_paths)
+            dz.plain_call = lambda c: c not in self.unknown_functions
+            jd = dz.run(jb)
             self._norm[path] = self.bodies[path] if jd is jb else Body(self, desugar.split_switch_operands(jd))
         return self._norm[path]
 
